@@ -400,6 +400,14 @@ class _Desugar(ast.NodeTransformer):
             return None
         if any(isinstance(x, ast.Name) and x.id == target.id for x in ast.walk(gen)):
             return None
+        # the generator's own variables stay private to the loop that replaces it
+        k = next(_counter)
+        ren = _Renamer({x.id: f"{x.id}__c{k}" for x in ast.walk(comp.target) if isinstance(x, ast.Name)})
+        gen = copy.deepcopy(gen)
+        comp = gen.generators[0]
+        comp.target = ren.visit(comp.target)
+        comp.ifs = [ren.visit(c) for c in comp.ifs]
+        gen.elt = ren.visit(gen.elt)
         init = ast.Assign(targets=[ast.Name(id=target.id, ctx=ast.Store())], value=default, lineno=st.lineno)
         hit = [ast.Assign(targets=[ast.Name(id=target.id, ctx=ast.Store())], value=gen.elt, lineno=st.lineno), ast.Break()]
         body = hit
